@@ -22,7 +22,8 @@ MODEL = "cuqi/model/_model.py:Model"
 
 
 def _norm(e) -> str:
-    return unparse(e).replace(" ", "").replace("\n", "")
+    from .common import vstr
+    return vstr(e)
 
 
 def run(chk, repo: Repo):
